@@ -23,7 +23,7 @@ import os
 import re
 import struct
 
-STREAMS = ['decl-matrix', 'collision-inheritance', 'random-histories']
+STREAMS = ['decl-matrix', 'collision-inheritance', 'random-histories', 'class-family']
 THEOREMS = ['keyPair_injective', 'keyConcat_collides', 'get_returns_last_write', 'access_matrix',
             'getall_exact', 'changed_signal', 'reachable_state_refines_spec',
             'original_violates_get_returns_last_write', 'original_getall_misses_base_class',
@@ -573,6 +573,10 @@ class Impl:
         self.handler = objects.DBusObjectHandler(self.conn)
         self.objs = []
         self.serial = 100
+        self.warm = warm
+        if 'tree' in case:
+            self._init_tree(case, objects, interface)
+            return
         ifcache = {}
         chain = []
         for ci, c in enumerate(case['classes']):
@@ -644,6 +648,35 @@ class Impl:
             self.decl_lines.append('declerr')
             self.failed = 'declerr'
 
+    def _init_tree(self, case, objects, interface):
+        """a class FAMILY: case['tree'] = class nodes (parent index or -1 = DBusObject; parents first),
+        case['inst'][o] = node of instance o.  The classes are built once; the instances are created by the 'new'
+        operations of the history, so that objects of several classes of the family live together and the class-level
+        state (interface caches, bound descriptors, anything else kept on a class) is shared by the whole history."""
+        ifcache = {}
+        self.node_cls = []
+        for k, c in enumerate(case['tree']):
+            ifs = []
+            for f in c['ifaces']:
+                key = repr(f)            # one definition = one DBusInterface object
+                if key not in ifcache:
+                    ps = [interface.Property(p[0], p[1], readable=p[2], writeable=p[3],
+                                             emitsOnChange={'t': True, 'f': False, 'i': 'invalidates'}[p[4]])
+                          for p in f['props']]
+                    ifcache[key] = interface.DBusInterface(f['name'], *ps, noRegister=True)
+                ifs.append(ifcache[key])
+            ns = {}
+            if ifs:
+                ns['dbusInterfaces'] = list(ifs)
+            for a, p, i in c['descs']:
+                ns[a] = objects.DBusProperty(p, i)
+            parent = objects.DBusObject if c['parent'] < 0 else self.node_cls[c['parent']]
+            self.node_cls.append(type('C17Node%d' % k, (parent,), ns))
+        self.paths = ['/o%d' % n for n in range(case['nobj'])]
+        self.objidx = {p: n for n, p in enumerate(self.paths)}
+        self.objs = [None] * case['nobj']
+        self.inst_cls = [self.node_cls[n] for n in case['inst']]
+
     def _take(self, n0):
         out = [Obs(m) for m in self.conn.sent[n0:]]
         return out
@@ -653,6 +686,22 @@ class Impl:
         from txdbus import message, marshal
         n0 = len(self.conn.sent)
         kind = op[0]
+        if kind == 'new':
+            # (class families only) instance op[1] of its class comes into being
+            cls = self.inst_cls[op[1]]
+            try:
+                if self.case.get('ctor'):
+                    o = cls.__new__(cls)
+                    if self.warm:
+                        cls('/probe').getAllProperties(PROPS)
+                else:
+                    o = cls(self.paths[op[1]])
+                    if self.warm:
+                        o.getAllProperties(PROPS)
+            except (AttributeError, KeyError):
+                return 'raised', [], True
+            self.objs[op[1]] = o
+            return 'done', [], False
         if kind == 'init':
             self.objects_mod.DBusObject.__init__(self.objs[op[1]], self.paths[op[1]])
             return None, [], False
@@ -1462,6 +1511,416 @@ def run_oracle_stream(ctx, stream, cases, warm, seen):
             ctx.violation(key, what, inp=c, observed={'op_index': idx, 'observed': observed}, expected=expected)
 
 
+# =========================================================================== class families
+# Objects of SEVERAL classes of one inheritance family (base, middle, derived; siblings) live in one process and are
+# used in every order.  The classes are built once per case and never rebuilt between the steps: whatever the
+# implementation keeps on a class (interface caches, bound descriptors, any memo) is shared by the whole history.
+# The oracle is the ordinary one, one per instance, reading the declarations of the instance's OWN class chain: what
+# an object answers depends on its class's MRO and on the values assigned to it, not on which other classes were
+# used before.
+FAMILY_SHAPES = {'chain2': [-1, 0], 'chain3': [-1, 0, 1], 'fork': [-1, 0, 0], 'fork-deep': [-1, 0, 1, 1],
+                 'fork-chain': [-1, 0, 1, 0]}
+CHAIN_SHAPES = ['chain2', 'chain2', 'chain3']
+TREE_SHAPES = ['fork', 'fork', 'fork-deep', 'fork-chain']
+
+
+def tree_chain_idx(tree, node):
+    out = []
+    while node >= 0:
+        out.append(node)
+        node = tree[node]['parent']
+    return out
+
+
+def tree_chain(case, node):
+    """the classes of `node`'s MRO below DBusObject, most derived first"""
+    return [case['tree'][k] for k in tree_chain_idx(case['tree'], node)]
+
+
+def tree_subtree(tree, node):
+    """`node` and every class derived from it"""
+    return [k for k in range(len(tree)) if node in tree_chain_idx(tree, k)]
+
+
+def tree_as_chain(case):
+    """(chain most derived first, level of every instance) when the family is ONE chain, else None"""
+    tree = case['tree']
+    kids = [0] * len(tree)
+    for c in tree:
+        if c['parent'] >= 0:
+            kids[c['parent']] += 1
+    if sum(1 for c in tree if c['parent'] < 0) != 1 or any(k > 1 for k in kids):
+        return None
+    order = tree_chain_idx(tree, kids.index(0))
+    level = {n: j for j, n in enumerate(order)}
+    return [tree[n] for n in order], [level[n] for n in case['inst']]
+
+
+def family_stable(tree):
+    """every DBusProperty means the same declaration in the chain of its own class and in the chain of every class
+    derived from it (otherwise which instance walks the class caches first decides: the known finding
+    sibling-classes-share-descriptor)"""
+    for c in range(len(tree)):
+        own = [tree[k] for k in tree_chain_idx(tree, c)]
+        for a, p, i in tree[c]['descs']:
+            ref = resolve(own, i, p)
+            if ref[1] is None:
+                return False
+            for c2 in tree_subtree(tree, c):
+                if resolve([tree[k] for k in tree_chain_idx(tree, c2)], i, p) != ref:
+                    return False
+    return True
+
+
+def family_info(tree, node):
+    chain = [tree[k] for k in tree_chain_idx(tree, node)]
+    info = []
+    for a, i, p in decl_props(chain):
+        i2, q = resolve(chain, i, p)
+        if q is not None:
+            info.append((a, i2, p, q))
+    return info
+
+
+def gen_family_tree(rng, shape, unstable=False):
+    parents = FAMILY_SHAPES[shape]
+    n = len(parents)
+    tree = [{'parent': p, 'ifaces': [], 'descs': []} for p in parents]
+    names = rng.sample(IFACE_POOL, rng.choice([2, 2, 3, 3, 4]))
+    ifs = []
+    for nm in names:
+        f = gen_iface(rng, nm, rng.sample(PNAME_POOL, rng.choice([1, 2, 2, 3])), rich=rng.random() < 0.15)
+        for p in f['props']:
+            if rng.random() < 0.5:
+                p[2], p[3] = True, True
+        ifs.append(f)
+    owners = []
+    for j, f in enumerate(ifs):
+        if j == 0:
+            k = 0 if rng.random() < 0.8 else rng.randrange(n)      # usually the base class declares something
+        elif j == 1:
+            k = rng.randrange(1, n)                                # a derived class declares something of its own
+        else:
+            k = rng.randrange(n)
+        owners.append(k)
+        tree[k]['ifaces'].append(f)
+        sub = tree_subtree(tree, k)
+        if len(sub) > 1 and rng.random() < 0.1:
+            tree[rng.choice(sub[1:])]['ifaces'].append(f)          # listed again by a derived class
+    cnt = 0
+    for f, k in zip(ifs, owners):
+        sub = tree_subtree(tree, k)
+        for p in f['props']:
+            if rng.random() < 0.06:
+                continue                   # listed on the interface, no descriptor: an unknown property
+            at = k if rng.random() < 0.6 else rng.choice(sub)
+            a = 'p%d' % cnt
+            cnt += 1
+            unique = sum(1 for g in ifs for q in g['props'] if q[0] == p[0]) == 1
+            named = (not unique) or rng.random() < 0.6
+            tree[at]['descs'].append([a, p[0], f['name'] if named else None])
+            r = rng.random()
+            others = [x for x in sub if x != at]
+            if r < 0.1 and others:
+                tree[rng.choice(others)]['descs'].append([a, p[0], f['name']])      # same attribute, same property
+            elif r < 0.14:
+                tree[rng.choice(sub)]['descs'].append(['p%d' % cnt, p[0], f['name']])  # a second attribute
+                cnt += 1
+    if unstable:
+        # the base declares an unnamed DBusProperty; a derived class brings an interface listing the same property
+        # name EARLIER in its MRO: the binding of the shared descriptor depends on who walks first
+        base = {'name': 'org.zz.Base', 'props': [['Xu', rng.choice('is'), True, True, rng.choice('tf')]]}
+        tree[0]['ifaces'].append(base)
+        tree[0]['descs'].append(['xu', 'Xu', None])
+        d = rng.randrange(1, n)
+        tree[d]['ifaces'].insert(0, {'name': 'org.aa.First', 'props': [['Xu', rng.choice('is'), True, True, 'f']]})
+    for c in tree:
+        rng.shuffle(c['descs'])
+    return tree
+
+
+def gen_family_case(rng, shape, unstable=False):
+    tree = gen_family_tree(rng, shape, unstable)
+    n = len(tree)
+    depth = [len(tree_chain_idx(tree, k)) for k in range(n)]
+    # instances: a class and a class derived from it at least; then anything
+    anc = rng.choice([k for k in range(n) if len(tree_subtree(tree, k)) > 1])
+    inst = [anc, rng.choice(tree_subtree(tree, anc)[1:])]
+    for _ in range(rng.choice([0, 1, 1, 2])):
+        inst.append(rng.randrange(n))
+    rng.shuffle(inst)
+    nobj = len(inst)
+    infos = [family_info(tree, k) for k in range(n)]
+    pairs = {}
+    for k in range(n):
+        for a, i, p, q in infos[k]:
+            pairs.setdefault((i, p), q)
+    pairs = sorted(pairs.items())
+    ifnames = sorted(set(f['name'] for c in tree for f in c['ifaces']))
+    ops = []
+    created = []
+
+    def create(o, split=None):
+        head = [['new', o]]
+        post = []
+        style = rng.choice(['after', 'after', 'before', 'mixed'])
+        full = rng.random() < 0.9
+        for a, i, p, q in infos[inst[o]]:
+            if full or rng.random() < 0.5:
+                v = good_value(rng, q[1])
+                where = {'after': 'a', 'before': 'b'}.get(style) or rng.choice('abx')
+                if where in 'bx':
+                    head.append(['assign', o, a, v])
+                if where in 'ax':
+                    post.append(['assign', o, a, good_value(rng, q[1]) if where == 'x' else v])
+        tail = [['init', o]] + post
+        if rng.random() < 0.95:
+            tail.append(['export', o])
+        created.append(o)
+        return head, tail
+
+    def lookup(o, i, p, q, what=None):
+        r = rng.random() if what is None else what
+        if r < 0.55:
+            return ['get', o, i, p]
+        if r < 0.85:
+            v = plain(good_value(rng, q[1]))
+            wt = wire_type_for(rng, v, prefer=q[1] if rng.random() < 0.9 else None)
+            if wt is not None:
+                return ['set', o, i, p, v, wt]
+            return ['get', o, i, p]
+        return ['getall', o, i]
+
+    def sweep(objs, some=True):
+        if not pairs or not objs:
+            return
+        sel = rng.sample(pairs, min(len(pairs), rng.choice([1, 2, 3, len(pairs)]))) if some else pairs
+        if rng.random() < 0.5:
+            todo = [(o, ip, q) for ip, q in sel for o in objs]
+        else:
+            todo = [(o, ip, q) for o in objs for ip, q in sel]
+        for o, (i, p), q in todo[:24]:
+            ops.append(lookup(o, i, p, q, None if some else 0.0))
+
+    by_depth = sorted(range(nobj), key=lambda o: (depth[inst[o]], o))
+    order = rng.choice([by_depth, by_depth[::-1], rng.sample(range(nobj), nobj)])
+    late = [o for o in order if rng.random() < 0.2]
+    if len(late) == nobj:
+        late = late[1:]
+    first = [o for o in order if o not in late]
+    if rng.random() < 0.25:
+        parts = [create(o) for o in first]
+        for h, _ in parts:
+            ops.extend(h)
+        for _, t in parts:
+            ops.extend(t)
+    else:
+        for o in first:
+            h, t = create(o)
+            ops.extend(h + t)
+    if rng.random() < 0.6:
+        so = rng.choice([by_depth, by_depth[::-1], rng.sample(range(nobj), nobj)])
+        sweep([o for o in so if o in created])
+    for _ in range(rng.randrange(3, 18)):
+        if late and rng.random() < 0.25:
+            h, t = create(late.pop())
+            ops.extend(h + t)
+            continue
+        o = rng.choice(created)
+        own = infos[inst[o]]
+        z = rng.random()
+        if z < 0.45 and pairs:
+            (i, p), q = rng.choice(pairs)            # any pair of the family: maybe one this object does not have
+            a = None
+        elif own:
+            a, i, p, q = rng.choice(own)
+        else:
+            continue
+        if rng.random() < 0.12:
+            y = rng.random()
+            if y < 0.3:
+                i = rng.choice(['org.zzz', PROPS, 'org'] + ifnames)
+            elif y < 0.6:
+                p = rng.choice(['nope', 'bc', 'c', 'abc', 'b'])
+            elif y < 0.75:
+                i = ''
+            else:
+                gi = rng.choice(ifnames + [PROPS, 'org.zzz', ''])
+                ops.append(['getall', o, gi])
+                continue
+        if a is not None and rng.random() < 0.3:
+            if rng.random() < 0.06:
+                v = from_py(rng.choice(JUNK_LOCAL))
+                if v[0] in 'DXTKY' and q[1] in 'og':
+                    v = ['N']
+            else:
+                v = good_value(rng, q[1])
+            ops.append(['assign', o, a, v])
+        else:
+            ops.append(lookup(o, i, p, q))
+    for o in late:
+        h, t = create(o)
+        ops.extend(h + t)
+    if rng.random() < 0.7:
+        sweep(rng.choice([by_depth, by_depth[::-1], rng.sample(range(nobj), nobj)]), some=rng.random() < 0.5)
+    kind = 'stable' if family_stable(tree) else 'unstable'
+    return {'tree': tree, 'inst': inst, 'nobj': nobj, 'ctor': True, 'ops': ops, 'shape': shape, 'kind': kind}
+
+
+def enc_family(case):
+    """driver lines of a one-chain family: the declarations, `family`, then the history with `new <o> <level>`"""
+    classes, levels = tree_as_chain(case)
+    lines, nd = enc_case({'classes': classes, 'ops': [op for op in case['ops'] if op[0] != 'new']})
+    head = lines[:nd - 1] + ['family']
+    # (re-encode the history in order, with the `new` operations)
+    body = []
+    for op in case['ops']:
+        if op[0] == 'new':
+            body.append('new %d %d' % (op[1], levels[op[1]]))
+        elif op[0] != 'init':
+            body.extend(enc_case({'classes': [], 'ops': [op]})[0][2:])
+    return head + body, len(head)
+
+
+def family_order_stats(case):
+    """which orders of use the history contains: a lookup of an (interface, property) pair on an object whose class
+    does not declare it BEFORE / AFTER the first lookup of that pair on an object whose class does"""
+    tree = case['tree']
+    has = [set((i, p) for a, i, p, q in family_info(tree, k)) for k in range(len(tree))]
+    first_own, first_foreign = {}, {}
+    out = set()
+    for n, op in enumerate(case['ops']):
+        if op[0] in ('get', 'set'):
+            ip = (op[2], op[3])
+            if not any(ip in h for h in has):
+                continue
+            if ip in has[case['inst'][op[1]]]:
+                if ip in first_foreign and ip not in first_own:
+                    out.add('pair asked of a class without it, then of a class with it')
+                first_own.setdefault(ip, n)
+            else:
+                if ip in first_own and ip not in first_foreign:
+                    out.add('pair asked of a class with it, then of a class without it')
+                first_foreign.setdefault(ip, n)
+    news = [op[1] for op in case['ops'] if op[0] == 'new']
+    d = [len(tree_chain_idx(tree, case['inst'][o])) for o in news]
+    if any(d[j] < d[j + 1] for j in range(len(d) - 1)):
+        out.add('base-class object created before derived-class object')
+    if any(d[j] > d[j + 1] for j in range(len(d) - 1)):
+        out.add('derived-class object created before base-class object')
+    return out
+
+
+def run_family_case(case, warm=True):
+    """the implementation and one oracle per instance (declarations = the chain of the instance's own class)"""
+    impl = Impl(case, warm=warm)
+    orcs = [Oracle(dict(case, classes=tree_chain(case, n))) for n in case['inst']]
+    out = []
+    stats = {}
+    ret = asg = False
+    for idx, op in enumerate(case['ops']):
+        line, obs, raised = impl.run_op(op)
+        if line is None:
+            continue
+        out.append(line)
+        if op[0] == 'new':
+            if raised:
+                stats['new:raised'] = 1
+                break                  # declarations the classes cannot bind: nothing further is defined
+            continue
+        orcs[op[1]].step(idx, op, obs, raised)
+        k = op[0] + ':' + coarse(line).split(' | ')[-1].split(' ')[0]
+        stats[k] = stats.get(k, 0) + 1
+        ret = ret or line.startswith('ret') or ' | ret' in line
+        asg = asg or (op[0] == 'assign' and not raised)
+    viol = []
+    for oc in orcs:
+        viol.extend(oc.viol)
+    return dict(impl=out, viol=viol, judged=all(oc.judged for oc in orcs), nontrivial=ret and asg, stats=stats)
+
+
+def shrink_family(case, key, warm, budget=150):
+    def has(c):
+        try:
+            return any(v[0] == key for v in run_family_case(c, warm)['viol'])
+        except Exception:
+            return False
+    cur = case
+    n = 0
+    changed = True
+    while changed and n < budget:
+        changed = False
+        k = len(cur['ops']) - 1
+        while k >= 0 and n < budget:
+            cand = dict(cur, ops=cur['ops'][:k] + cur['ops'][k + 1:])
+            n += 1
+            if has(cand):
+                cur = cand
+                changed = True
+            k -= 1
+    return cur
+
+
+def run_family(ctx, stream, cases, seen, with_model=True):
+    """`with_model`: one-chain families are also compared with the Lean model (Obj/PropsFamily.lean)"""
+    spans = []
+    all_lines = []
+    for c in cases:
+        if with_model and tree_as_chain(c) is not None and not c.get('unwarmed'):
+            lines, nd = enc_family(c)
+            spans.append((len(all_lines), len(lines), nd))
+            all_lines.extend(lines)
+        else:
+            spans.append(None)
+    out = ctx.model(['cfg repaired'] + all_lines) if all_lines else None
+    if out is not None:
+        out = out[1:]
+    for c, sp in zip(cases, spans):
+        warm = not c.get('unwarmed')
+        try:
+            res = run_family_case(c, warm)
+        except Exception as e:   # a crash of the implementation outside any reply path
+            res = dict(impl=[], viol=[('implementation-raises', 'the implementation raised outside a reply: %r' % (e,),
+                                       -1, type(e).__name__, 'no exception')], judged=True, nontrivial=False, stats={})
+            sp = None
+        ctx.case(stream, sample=c, nontrivial=res['nontrivial'])
+        ctx.impl_trace()
+        for k, n in res['stats'].items():
+            ctx.stat('%s %s' % (stream, k), n)
+        ctx.stat('%s shape=%s' % (stream, c.get('shape', '?')))
+        ctx.stat('%s kind=%s' % (stream, c.get('kind', '?')))
+        ctx.stat('%s instances=%d classes-with-instances=%d' % (stream, c['nobj'], len(set(c['inst']))))
+        ctx.stat('%s %s' % (stream, 'judged' if res['judged'] else 'not-judged'))
+        ctx.stat('%s %s' % (stream, 'warmed' if warm else 'not-warmed'))
+        for k in sorted(family_order_stats(c)):
+            ctx.stat('%s order: %s' % (stream, k))
+        if sp is not None and out is not None:
+            a, n, nd = sp
+            ml = out[a:a + n]
+            want = ['ok'] * nd + res['impl']
+            for k in range(len(want)):
+                if k >= len(ml) or coarse(ml[k]) != coarse(want[k]):
+                    ctx.disagree(stream, c, ml[k] if k < len(ml) else None, want[k],
+                                 detail={'line_index': k, 'line': all_lines[a + k]})
+                    break
+        for key, what, idx, observed, expected in res['viol']:
+            cc = c
+            if c.get('kind') == 'unstable':
+                what = ('a DBusProperty declared without interface name on a base class is bound once, with the '
+                        'interfaces of whichever instance walked the class caches first; the classes of the family '
+                        'list its property name on different interfaces, so the other class sees the wrong declaration '
+                        '(%s: %s)' % (key, what))
+                key = SIBLING_KEY
+            elif key not in seen:
+                seen.add(key)
+                cc = shrink_family(c, key, warm)
+                for v in run_family_case(cc, warm)['viol']:
+                    if v[0] == key:
+                        key, what, idx, observed, expected = v
+                        break
+            ctx.violation(key, what, inp=cc, observed={'op_index': idx, 'observed': observed}, expected=expected)
+
+
 # =========================================================================== reporting
 def shrink(case, key, budget=120):
     """greedy removal of operations (then of the second instance) while the same violation key persists"""
@@ -1576,6 +2035,10 @@ def run(ctx):
     seen = set()
     corpus = [c for _, c in ctx.corpus()]
     corpus = [c.get('input', c) for c in corpus]
+    fam = [c for c in corpus if 'tree' in c]
+    run_family(ctx, 'class-family', [c for c in fam if tree_as_chain(c) is not None and not c.get('unwarmed')], seen)
+    run_family(ctx, 'class-tree', [c for c in fam if tree_as_chain(c) is None or c.get('unwarmed')], seen, False)
+    corpus = [c for c in corpus if 'tree' not in c]
     run_oracle_stream(ctx, 'sibling-classes', [c for c in corpus if 'siblings' in c], True, seen)
     run_oracle_stream(ctx, 'lazy-binding', [c for c in corpus if c.get('unwarmed')], False, seen)
     corpus = [c for c in corpus if 'siblings' not in c and not c.get('unwarmed')]
@@ -1609,11 +2072,26 @@ def run(ctx):
     run_oracle_stream(ctx, 'lazy-binding', cases, False, seen)
     n = ctx.scale(quick=120, thorough=1500)
     run_oracle_stream(ctx, 'sibling-classes', [gen_sibling_case(ctx.rng) for _ in range(n)], True, seen)
+    # ---- class families: objects of several classes of one inheritance family alive together, used in every order
+    n = ctx.scale(quick=350, thorough=5000)
+    cases = [gen_family_case(ctx.rng, ctx.rng.choice(CHAIN_SHAPES), unstable=ctx.rng.random() < 0.04) for _ in range(n)]
+    run_family(ctx, 'class-family', cases, seen)
+    n = ctx.scale(quick=200, thorough=3000)
+    cases = []
+    for _ in range(n):
+        c = gen_family_case(ctx.rng, ctx.rng.choice(TREE_SHAPES + CHAIN_SHAPES[:1]))
+        if ctx.rng.random() < 0.4:
+            c['unwarmed'] = True        # no walk of the class caches when an instance is created
+        cases.append(c)
+    run_family(ctx, 'class-tree', cases, seen, False)
 
 
 def replay(ctx, data):
     case = data.get('input', data)
-    if 'siblings' in case:
+    if 'tree' in case:
+        chain = tree_as_chain(case) is not None and not case.get('unwarmed')
+        run_family(ctx, 'class-family' if chain else 'class-tree', [case], set(), chain)
+    elif 'siblings' in case:
         run_oracle_stream(ctx, 'sibling-classes', [case], True, set())
     elif case.get('unwarmed'):
         run_oracle_stream(ctx, 'lazy-binding', [case], False, set())
